@@ -92,22 +92,8 @@ def Net.lt (a b : Net) : Bool := a.t2.toNat < b.t2.toNat || (a.t2 == b.t2 && a.k
 def famNetLt (a b : Fam × Net) : Bool := a.1.idx < b.1.idx || (a.1 == b.1 && a.2.lt b.2)
 def natFamLt (a b : Nat × Fam) : Bool := a.1 < b.1 || (a.1 == b.1 && a.2.idx < b.2.idx)
 
-def Op.fams : Op → List Fam
-  | .insert _ f .. => [f]
-  | .remove _ f .. => [f]
-  | .drop _ f => [f]
-  | .dropStale _ f _ => [f]
-  | .dropLlgr _ f _ => [f]
-  | .dropNoLlgr _ f _ => [f]
-  | .restale _ f => [f]
-  | .restaleLlgr _ f => [f]
-  | .nhValidity .. => []
-  | .startDeferral f => [f]
-  | .endDeferral f => [f]
-
-/-- the families a case touches, in the order v4, ev -/
-def Case.fams (c : Case) : List Fam :=
-  [Fam.v4, Fam.ev].filter fun f => c.ops.any fun o => o.fams.contains f
+/-- the families dumped after every step -/
+def allFams : List Fam := [Fam.v4, Fam.ev]
 
 def Entry.ref (e : Entry) : PathRef := { lpid := e.lpid, src := e.src.id, attr := e.attr.id, nh := e.nh }
 
@@ -144,7 +130,7 @@ def stepObs (c : Case) (tr : Table × Res) : StepObs :=
   let (t, r) := tr
   let addrs := c.srcs.map (·.addr)
   { res := r.obs t.flags
-    fams := c.fams.map (famObs t)
+    fams := allFams.map (famObs t)
     stats := (sortOn (fun a b => natFamLt a.1 b.1) (t.stats.filter fun s => addrs.contains s.1.1)).map
       fun s => (s.1.1, s.1.2, s.2.1, s.2.2)
     ctrs := (sortOn (fun a b => natFamLt a.1 b.1) (t.ctrs.filter fun s => s.2 != 0)).map
